@@ -8,6 +8,8 @@ from .. import paths
 from ..core import FUNC, call_attr, calls_in, const, dotted, is_const, kwarg, norm, text, walk_local
 
 EXPLANATION = [
+    'C12.integer-arithmetic: no true division in the anchored modules: sizes and budgets are integers (a fractional budget admits one entry too many).',
+    'C12.missing-await: inside async functions no call that resolves (through the declared type of self.<attr>, or self) to a coroutine method is returned or dropped without await.',
     'C12.sdu-boundary: LeCreditBasedChannel.process_output closes the SDU it is assembling as soon as one queued packet has been consumed entirely (path rule over the assembling loop): a notification / response written on an enhanced bearer arrives as its own PDU.',
     'C12.encode-once: the fan-out functions of notify / indicate pass the application\'s `value` through unchanged, and the single-bearer helpers encode exactly once (read_value(bearer) if value is None else attribute.encode_value(value)).',
     'C12.mtu-agreement: both ends adopt min(what this side announced, what the peer announced) as ATT_MTU (same rule as C10.mtu-agreement): long reads continue exactly where the first response ended and values are truncated to the MTU the client computed.',
@@ -582,7 +584,19 @@ def sdu_boundary(ctx, rule='C12.sdu-boundary'):
             'the loop that assembles an SDU goes on after a queued packet has been consumed: the next packet is appended to the same SDU, so two ATT PDUs written on an enhanced bearer while the channel waits for credits arrive as one (the second response / notification is swallowed)', p.loc(loop), bad[:3])
 
 
+def missing_await_rule(ctx):
+    from ..generic_rules import missing_await
+    missing_await(ctx, 'C12.missing-await', ['bumble.gatt_client', 'bumble.gatt_server', 'bumble.gatt'])
+
+
+def integer_arithmetic_rule(ctx):
+    from ..generic_rules import integer_arithmetic
+    integer_arithmetic(ctx, 'C12.integer-arithmetic', ['bumble.gatt_client', 'bumble.gatt_server'])
+
+
 RULES = [
+    ('C12.integer-arithmetic', integer_arithmetic_rule),
+    ('C12.missing-await', missing_await_rule),
     ('C12.sdu-boundary', sdu_boundary),
     ('C12.encode-once', encode_once),
     ('C12.mtu-agreement', mtu_agreement_rule),
